@@ -94,6 +94,19 @@ var handK = []string{
 	`def b { def c {}; print "s" * c }`,
 	`def b { def c {}; c = 2; print c }`,
 	`def b { TYPE = 1; NAME = 2; print TYPE; print NAME }`,
+	// constants of different kinds with the same spelling (a constant pool keyed by text would confuse them)
+	`var v = 1.5; def r "1.5" { x = "1.5" + v }; print v`,
+	`def r "1.5" { x = 1.5; y = "1.5" }; print 1.5`,
+	`print 2.0; def a "2" { f = "2" }; print 2`,
+	`print 1e3; print "1000"; def b "1000" {}`,
+	`def a "2.5" { f = 2.5 }; bind a -> struct`,
+	`print true or 7.25; def b "7.25" { k = "7.25" }`,
+	`print 10; def b "10" { x = 10; y = "10" }`,
+	`def a "a" { a = "a"; print a }`,
+	`def x "x" { x = "x"; def x "x" { x = x + "x" } }`,
+	`var s = "nil"; print s == nil; print "true" == true; def t "true" { f = true }`,
+	`print 0.0; print "0"; print 0; def z "0" { f = 0.0 }`,
+	`def a { TYPE1 = 1; x = "TYPE" }; def NAME "TYPE" { print NAME + TYPE }`,
 	// runtime errors
 	`print 1 + "a"`,
 	`print 1/0`,
